@@ -36,11 +36,13 @@ def run(ck):
              "/usr/$A/$AB/~/x", "$ABC", "$AB_", "pre$AAA", "$HOME/~", "~$A", "$A~", "$A~/", "x$", "x~", "$Z9_z"]
     # name characters at the edges of the three ranges and the characters just outside them ('/' ':' '@' '[' '^' '`')
     extra += ["$A0", "$A9", "$0", "$9", "$09", "$Z", "$Z9", "$AZ_09", "$A0/x", "$A:0", "$A/0", "$A@", "$@A", "$A[", "$[", "$A^", "$A`", "$`", "$A0$Z9", "x$0y", "$9:$0", "$Az", "$Za", "$z", "$a0",
-              "~0", "~9", "~Z", "~_", "~@", "~[", "0~", "9~/"]
+              "~0", "~9", "~Z", "~_", "~@", "~[", "0~", "9~/",
+              # a reference directly followed by '=' (the separator inside environment entries) and other punctuation
+              "$A=", "$A=b", "x$A=$A", "$A=1", "$AB=$A", "=$A", "$=", "$A==", "$HOME=/x", "~=", "$A,", "$A.", "$A-", "$A+", "$A\t", "$A "]
     extra += ["$" + "N" * 63, "$" + "N" * 63 + "X", "<$" + "N" * 63 + "XY>", "$" + "N" * 62, "a$" + "M" * 200 + "/b", "$" + "M" * 199, "$" + "M" * 201, "$" + "N" * 63 + "/$" + "N" * 63 + "X"]
     for _ in range(2000 if ck.tier == "quick" else 40000):
         n = ck.rng.randint(6, 30)
-        extra.append("".join(ck.rng.choice("$$~~AAB_a1/:{}x.-09Zz@[") for _ in range(n)))
+        extra.append("".join(ck.rng.choice("$$~~AAB_a1/:{}x.-09Zz@[==") for _ in range(n)))
     strings += extra
     hist = []
     for ei, env in enumerate(ENVS + [None]):
